@@ -140,6 +140,8 @@ type Cluster struct {
 	// connection with AUTH_CHALLENGE "challenge-<n>"; OnAuthResponse sees every token.
 	AuthRounds     int
 	OnAuthResponse func(sc *SConn, round int, token []byte)
+	// LocalWithoutAddress makes system.local rows carry no usable address.
+	LocalWithoutAddress bool
 	// EventsToAll makes PushEvent send on every started connection, registered or not
 	// (a misbehaving node).
 	EventsToAll bool
@@ -656,6 +658,11 @@ func (cl *Cluster) LocalRows(version int, h *Host) (*cqlspec.RowsMeta, [][]cqlsp
 		cell(cqlspec.EncText(h.DC)), cell(uuidBytes(h.HostID)), cell(ipBytes(h.broadcast())),
 		cell(cqlspec.EncText(cl.Partitioner)), cell(cqlspec.EncText(h.Rack)), cell(cqlspec.EncText(h.Version)),
 		cell(ipBytes(h.Addr)), cell(uuidBytes(h.SchemaVersion)), tokensCell(version, h.Tokens),
+	}
+	if cl.LocalWithoutAddress {
+		// a local row that names no usable address (a misbehaving node)
+		row[1], row[5] = cqlspec.Cell{Null: true}, cqlspec.Cell{Null: true}
+		row[9] = cell(ipBytes("0.0.0.0"))
 	}
 	return meta, [][]cqlspec.Cell{row}
 }
